@@ -20,7 +20,21 @@ func H_C05_cells_MODELNAME() { c05cells_MODELNAME(3, 2, 2, 2) }
 //vsym:prop=C05 tier=thorough ints=int floats=real timeout=120 wall=900 cut=3 unwind=80
 func H_C05_cells4_MODELNAME() { c05cells_MODELNAME(4, 3, 3, 3) }
 
-func c05cells_MODELNAME(N, nSets, nBlocks, T int) {
+// H_C05_realroot_MODELNAME: models that solve iteratively (StorageRouting) are run once more with
+// the REAL fn.FindRoot instead of its summary (its loop cut after 2 iterations: the footprints,
+// not convergence, are what is checked); a no-op for all other models.
+//vsym:prop=C05 tier=quick ints=int floats=real timeout=60 wall=300 cut=2 unwind=80
+func H_C05_realroot_MODELNAME() {
+	if "MODELNAME" != "StorageRouting" {
+		vsym.Reach("not-an-iterative-model")
+		return
+	}
+	c05cellsx_MODELNAME(2, 2, 2, 1, true)
+}
+
+func c05cells_MODELNAME(N, nSets, nBlocks, T int) { c05cellsx_MODELNAME(N, nSets, nBlocks, T, false) }
+
+func c05cellsx_MODELNAME(N, nSets, nBlocks, T int, realRoot bool) {
 	name := "MODELNAME"
 	if wrHeavy(name) {
 		vsym.Note("kernel of " + name + " is outside the reach of the executor within the budget: this wrapper is not exercised with its own kernel")
@@ -28,7 +42,9 @@ func c05cells_MODELNAME(N, nSets, nBlocks, T int) {
 		return
 	}
 	vsym.Summarise("NoKernelImplicit")
-	vsym.Summarise("FindRoot")
+	if !realRoot {
+		vsym.Summarise("FindRoot")
+	}
 	w := wrNew(name, 3)
 	nI, nO := len(w.desc.Inputs), len(w.desc.Outputs)
 	params := w.params(nSets, []int{2, 3})
